@@ -224,7 +224,8 @@ func TestC08Seq(t *testing.T) {
 	pr := &Profile{
 		MultiHandle: true, Purge: 2, Reopen: 1, Sync: 4, FeedsMax: 3, BadArgs: 6,
 		// feeds come and go in the middle of a history: those that run keep getting exactly their events
-		Extra: []ExtraAction{{Name: "StartFeed", Weight: 2, Gen: genStartFeed}, {Name: "StopFeed", Weight: 2, Gen: genStopFeed}},
+		Extra: []ExtraAction{{Name: "StartFeed", Weight: 2, Gen: genStartFeed}, {Name: "StopFeed", Weight: 2, Gen: genStopFeed},
+			{Name: "DropColl", Weight: 1, Gen: genDropColl}, {Name: "CreateColl", Weight: 2, Gen: genCreateColl}},
 	}
 	seqProperty(t, "C08", "TestC08Seq", pr, 1500,
 		"rapid histories over all entry points (including failing calls) with 1-3 live feeds (plain, KeysOnly, multi-collection) started through any handle, further feeds started and running ones ended by their terminator in the middle of the history (up to five at a time), and writes through any handle; after a sentinel write the events of each feed are compared, one by one, with the documents they must describe; non-trivial = at least one live feed, and either >= 2 handles or >= 2 feeds, with >= 5 different entry points among the successful mutations; distinct by <op, prior class, CAS class, outcome> sequence",
